@@ -32,8 +32,11 @@ def main():
             evidence_file="/verif/evidence/%s.json" % pid,
             replay_cmd_template="bin/check %s --replay {path}" % pid,
             engine="solver",
-            level_claimed=dict(category="model_checking", text=c.get("level_text", ""), design_ref=c.get("design_ref", "DESIGN.md section 4, " + pid)),
-            level_note=c.get("level_note", ""),
+            level_claimed=dict(category="model_checking",
+                               text=c.get("level_text") or ("bounded model checking: for every enumerated query (one operation at one concrete operand shape / sign tuple) the solver decides the "
+                                                            "assertion for ALL digit and scalar contents; bounds: " + c.get("bounds_quick", "")[:600]),
+                               design_ref=c.get("design_ref", "DESIGN.md sections 4 and 9, " + pid)),
+            level_note=c.get("level_note") or ("outside the claim: " + (c.get("outside", "") or "operands beyond the stated shapes") + " | trusted: " + "; ".join(c.get("trusted", []) + props.COMMON_TRUSTED))[:1800],
             technique=c.get("technique", "Kani/CBMC bounded model checking of unit harnesses injected into a copy of the real code"),
         ))
     na = []
